@@ -68,6 +68,9 @@ def run(ctx):
         if shm:
             combos += [("absolute", "shm:data", None), ("shm:internal", "absolute", True)]
             res.count("configurations_across_file_systems", 2)
+        # directories reached through the parent of the working directory (../store): the working directory of the moment the store
+        # was configured is removed later, while the same store object is still in use
+        combos += [("dotdot_sibling", "dotdot_sibling", None), ("dotdot_sibling", "absolute", True), ("absolute", "dotdot_sibling", 2)]
         combos += [("x:/store_internal", "x:/store", None), ("x:/st", "x:/st_data", True), ("x:/dd/internal", "x:/dd", None),
                    ("x:/ii", "x:/ii/data", None), ("x:/proj.store", "x:/proj", 2)]
         w = progs.gen_world(rng, nfun=3, allow=("call", "keep", "datafn"))
@@ -108,6 +111,8 @@ def run(ctx):
                     return os.path.join(root, "n1", "n2", "n3_" + leaf)
                 if style == "symlinked_parent":
                     return os.path.join(root, "linked", "sl_" + leaf)
+                if style == "dotdot_sibling":
+                    return os.path.join("..", "sib_" + leaf)
                 return os.path.join("..", "cwd1", "dd_" + leaf)
             internal, data = spell(si, "internal"), spell(sd, "data")
             case = {"internal_dir": internal.replace(root, "$R"), "data_dir": data.replace(root, "$R"), "cache_objects": cache}
@@ -135,6 +140,9 @@ def run(ctx):
                             break
                 if bad is None:
                     wk.call(cmd="cwd", dir=cwd2)
+                    if "dotdot_sibling" in (si, sd):
+                        shutil.rmtree(cwd1)
+                        res.count("configurations_whose_first_working_directory_is_removed")
                     for p, v in want_paths.items():
                         lv = wk.call(cmd="load", path=p)
                         if lv["error"] is not None or lv["value"] != v:
@@ -145,6 +153,7 @@ def run(ctx):
                         bad = "after the working directory changed the re-evaluation gives error %s / value %r / re-executes %s" % (r2["error"], r2["value"], r2["log"])
             finally:
                 wk.close()
+            os.makedirs(cwd1, exist_ok=True)
             if bad is None:
                 wk2 = pipeline.WorkerProc("real", cwd=cwd1)
                 try:
